@@ -126,18 +126,7 @@ func (c *Ctx) ruleA1A3(f *ssa.Function, tn string) {
 		c.ok("A1", consA, f.Pos(), fmt.Sprintf("every accepting path passes a successful membership comparison (%d comparison sites)", len(members)))
 	}
 	// A1(b): identity verification on every accepting path; result returned or tested; argument is the entry's identity
-	verify := func(in ssa.Instruction) bool {
-		call, ok := in.(ssa.CallInstruction)
-		if !ok || !c.isVerifyIdentity(call) {
-			return false
-		}
-		a := argsOf(call)
-		if len(a) != 1 || !dID[a[0]] {
-			return false
-		}
-		ev := errResult(call)
-		return ev != nil && (returnedDirectly(ev) || len(errTests(ev)) > 0)
-	}
+	verify := c.mkVerifySite(f, dID, 0)
 	consB := tn + ".CanAppend#verify-identity"
 	if hit, tr := findPath(f, entry, verify, func(in ssa.Instruction) bool {
 		r, ok := in.(*ssa.Return)
@@ -158,28 +147,7 @@ func (c *Ctx) ruleA1A3(f *ssa.Function, tn string) {
 		}
 	}
 	// A3: the signing key is bound to the identity: GetKey() compared with GetIdentity().PublicKey
-	bind := func(in ssa.Instruction) bool {
-		call, ok := in.(ssa.CallInstruction)
-		if !ok {
-			return false
-		}
-		switch calleeFull(call) {
-		case "bytes.Equal", "bytes.Compare":
-		default:
-			return false
-		}
-		hasKey, hasPub := false, false
-		for _, a := range call.Common().Args {
-			s := nf(a)
-			if strings.Contains(s, ".GetKey()") {
-				hasKey = true
-			}
-			if strings.Contains(s, ".GetIdentity().PublicKey") || (dID[a] && strings.Contains(s, "PublicKey")) {
-				hasPub = true
-			}
-		}
-		return hasKey && hasPub
-	}
+	bind := c.mkBindSite(f, dID, 0)
 	consC := tn + ".CanAppend#key-binding"
 	hasBind := false
 	eachInstr(f, func(in ssa.Instruction) {
@@ -194,6 +162,91 @@ func (c *Ctx) ruleA1A3(f *ssa.Function, tn string) {
 	} else {
 		c.ok("A3", consC, f.Pos(), "every accepting path binds the signing key to the identity's public key")
 	}
+}
+
+// mkVerifySite: instructions of f that verify the entry's identity and use the result — a
+// VerifyIdentity call on the identity, or a call to a repo helper given the entry or its
+// identity whose every accepting return passes such a site.
+func (c *Ctx) mkVerifySite(f *ssa.Function, dID map[ssa.Value]bool, depth int) instrPred {
+	return func(in ssa.Instruction) bool {
+		call, ok := in.(ssa.CallInstruction)
+		if !ok {
+			return false
+		}
+		if _, isGo := in.(*ssa.Go); isGo {
+			return false
+		}
+		if c.isVerifyIdentity(call) {
+			a := argsOf(call)
+			if len(a) != 1 || !dID[a[0]] {
+				return false
+			}
+			ev := errResult(call)
+			return ev != nil && (returnedDirectly(ev) || len(errTests(ev)) > 0)
+		}
+		return c.acHelperSite(call, dID, c.mkVerifySite, depth)
+	}
+}
+
+// mkBindSite: instructions of f that compare the entry's signing key with the public key of
+// the identity it names (directly, or in a helper as above).
+func (c *Ctx) mkBindSite(f *ssa.Function, dID map[ssa.Value]bool, depth int) instrPred {
+	return func(in ssa.Instruction) bool {
+		call, ok := in.(ssa.CallInstruction)
+		if !ok {
+			return false
+		}
+		if _, isGo := in.(*ssa.Go); isGo {
+			return false
+		}
+		switch calleeFull(call) {
+		case "bytes.Equal", "bytes.Compare":
+			hasKey, hasPub := false, false
+			for _, a := range call.Common().Args {
+				s := nf(a)
+				if strings.Contains(s, ".GetKey()") {
+					hasKey = true
+				}
+				if strings.Contains(s, ".GetIdentity().PublicKey") || (dID[a] && strings.Contains(s, "PublicKey")) {
+					hasPub = true
+				}
+			}
+			return hasKey && hasPub
+		}
+		return c.acHelperSite(call, dID, c.mkBindSite, depth)
+	}
+}
+
+// acHelperSite: the call hands the entry or its identity to a static repo helper, uses the
+// helper's error, and every accepting return of the helper passes a site of the given kind.
+func (c *Ctx) acHelperSite(call ssa.CallInstruction, dID map[ssa.Value]bool, mk func(*ssa.Function, map[ssa.Value]bool, int) instrPred, depth int) bool {
+	h := call.Common().StaticCallee()
+	if h == nil || h.Blocks == nil || h.Pkg == nil || !inRepo(h.Pkg.Pkg) || depth >= 3 {
+		return false
+	}
+	ev := errResult(call)
+	if ev == nil || !(returnedDirectly(ev) || len(errTests(ev)) > 0) {
+		return false
+	}
+	seeds := c.identityCalls(h)
+	for i, p := range h.Params {
+		if i < len(call.Common().Args) && dID[call.Common().Args[i]] {
+			seeds = append(seeds, p)
+		}
+	}
+	dH := derived(seeds, flowOpts{})
+	pred := mk(h, dH, depth+1)
+	any := false
+	eachInstr(h, func(in ssa.Instruction) {
+		if pred(in) {
+			any = true
+		}
+	})
+	if !any {
+		return false
+	}
+	hit, _ := findPath(h, entry, pred, acceptReturn, nil)
+	return hit == nil
 }
 
 // A2: the identity verification the controllers rely on is not a constant accept.
@@ -414,12 +467,14 @@ func (c *Ctx) ruleA4() {
 		}
 		fk := fnKey(f)
 		okAddr, okType := false, false
+		var addrStores, scCalls []ssa.Instruction
 		eachInstr(f, func(in ssa.Instruction) {
 			switch x := in.(type) {
 			case *ssa.Store:
 				if fa, ok := x.Addr.(*ssa.FieldAddr); ok && fieldName(fa.X.Type(), fa.Field) == "AccessControllerAddress" {
 					if strings.HasSuffix(nf(x.Val), ".AccessController") && loadsFrom(x.Val, manifest) {
 						okAddr = true
+						addrStores = append(addrStores, in)
 					}
 				}
 			case ssa.CallInstruction:
@@ -435,13 +490,39 @@ func (c *Ctx) ruleA4() {
 							})
 							if hasSC {
 								okType = true
+								scCalls = append(scCalls, in)
 							}
 						}
 					}
 				}
 			}
 		})
+		// the manifest's address is put in place on EVERY path to the store creation: a value
+		// left there by the caller (or by an earlier open through the same options) must not win
+		var skip ssa.Instruction
+		var skipTrail []token.Pos
 		if okAddr {
+			via := func(in ssa.Instruction) bool {
+				for _, s := range addrStores {
+					if in == s {
+						return true
+					}
+				}
+				return false
+			}
+			target := func(in ssa.Instruction) bool {
+				for _, s := range scCalls {
+					if in == s {
+						return true
+					}
+				}
+				return false
+			}
+			skip, skipTrail = findPath(f, entry, via, target, nil)
+		}
+		if okAddr && skip != nil {
+			c.bad("A4", fk+"#manifest→access-controller-address", skip.Pos(), "on some path the store is created with whatever access-controller address the caller's options already held instead of the one recorded in the manifest: options reused from an earlier open (the resolved address is written back into them) or filled in by the caller open this database under another database's write list", c.trailStr(skipTrail)...)
+		} else if okAddr {
 			c.ok("A4", fk+"#manifest→access-controller-address", f.Pos(), "the access-controller address used to open a database is the one recorded in its manifest")
 		} else {
 			c.bad("A4", fk+"#manifest→access-controller-address", f.Pos(), "opening a database does not take the access-controller address from the manifest stored at the address root")
@@ -717,6 +798,7 @@ func (c *Ctx) ruleT1() {
 	c.Counts["T1:wire sources (reads of MessageExchangeHeads.Heads)"] = nSrc
 	c.floor("T1", "wire sources (reads of MessageExchangeHeads.Heads)", nSrc, 2)
 	c.Counts["T1:tainted values"] = len(tainted)
+	c.wireTaint = tainted
 	realHits := 0
 	for _, h := range hits {
 		if !c.isControlFn(h.call.Parent()) {
@@ -746,6 +828,19 @@ func (c *Ctx) ruleT1() {
 
 // ---------------------------------------------------------------------------
 // N4
+
+// clockDefinedAt: a dominating exclusive branch established clock.Defined() == true, where
+// clock has the same normal form as the given value.
+func (c *Ctx) clockDefinedAt(clock ssa.Value, b *ssa.BasicBlock) bool {
+	for _, ft := range factsAt(b) {
+		if ft.Y == nil && ft.Op == token.EQL {
+			if dc, ok := ft.X.(*ssa.Call); ok && methodName(dc) == "Defined" && nf(dc.Common().Value) == nf(clock) {
+				return true
+			}
+		}
+	}
+	return false
+}
 
 func (c *Ctx) ruleN4(impls []*types.Named) {
 	// (a) boxing of wire-decoded head pointers into the entry interface
@@ -903,6 +998,95 @@ func (c *Ctx) ruleN4(impls []*types.Named) {
 		})
 	}
 	c.floor("N4", "received entries handed to the encoder", nW, 1)
+
+	// (e) clocks of entries received in a heads message (T1's taint set, followed into callees):
+	// GetClock() returns an interface holding a possibly nil *LamportClock, so a nil test of
+	// that interface proves nothing; any method but Defined() needs a Defined() guard.
+	for _, f := range c.RepoFns {
+		if c.isTestFile(f.Pos()) {
+			continue
+		}
+		fk := fnKey(f)
+		k := 0
+		eachCall(f, func(call ssa.CallInstruction) {
+			if methodName(call) == "Defined" || !call.Common().IsInvoke() {
+				return
+			}
+			rc, ok := call.Common().Value.(*ssa.Call)
+			if !ok || methodName(rc) != "GetClock" || recvOf(rc) == nil || !c.wireTaint[recvOf(rc)] {
+				return
+			}
+			cons := fmt.Sprintf("%s→wire-clock.%s#%d", fk, methodName(call), k)
+			k++
+			if c.clockDefinedAt(call.Common().Value, call.Block()) {
+				c.ok("N4", cons, call.Pos(), "the clock of a received head is used only after Defined() succeeded")
+			} else {
+				c.bad("N4", cons, call.Pos(), "the clock of a head received from a peer may be absent ({\"heads\":[{}]}): GetClock() then returns an interface holding a nil pointer, a nil test of that interface is always false, and "+methodName(call)+"() dereferences nil; only a dominating Defined() test protects the call")
+			}
+		})
+	}
+
+	// (f) identities of entries received in a heads message: GetIdentity() is a plain pointer
+	// that is nil when the head carries no identity; a field read needs a nil test
+	for _, f := range c.RepoFns {
+		if c.isTestFile(f.Pos()) {
+			continue
+		}
+		fk := fnKey(f)
+		k := 0
+		eachCall(f, func(rc ssa.CallInstruction) {
+			if methodName(rc) != "GetIdentity" || rc.Value() == nil || recvOf(rc) == nil || !c.wireTaint[recvOf(rc)] {
+				return
+			}
+			if _, isPtr := rc.Value().Type().Underlying().(*types.Pointer); !isPtr {
+				return
+			}
+			id := rc.Value()
+			type deref struct {
+				pos token.Pos
+				ok  bool
+			}
+			var ds []deref
+			for v := range valueAliases(id) {
+				refs := v.Referrers()
+				if refs == nil {
+					continue
+				}
+				for _, r := range *refs {
+					var pos token.Pos
+					switch x := r.(type) {
+					case *ssa.FieldAddr:
+						if x.X != v {
+							continue
+						}
+						pos = x.Pos()
+					case *ssa.UnOp:
+						if x.Op != token.MUL || x.X != v {
+							continue
+						}
+						if _, isAlloc := v.(*ssa.Alloc); isAlloc {
+							continue
+						}
+						pos = x.Pos()
+					default:
+						continue
+					}
+					in := r.(ssa.Instruction)
+					ds = append(ds, deref{pos, nonNilAt(v, in.Block()) || nonNilAt(id, in.Block())})
+				}
+			}
+			sort.Slice(ds, func(i, j int) bool { return ds[i].pos < ds[j].pos })
+			for _, d := range ds {
+				cons := fmt.Sprintf("%s→wire-identity-deref#%d", fk, k)
+				k++
+				if d.ok {
+					c.ok("N4", cons, d.pos, "the identity of a received head is nil-tested before its field is read")
+				} else {
+					c.bad("N4", cons, d.pos, "the identity of a head received from a peer may be absent: reading a field of GetIdentity() without a nil test dereferences nil in the message handler")
+				}
+			}
+		})
+	}
 
 	// (c) clocks of announced entries: methods other than Defined() need a Defined() guard
 	for _, f := range c.RepoFns {
